@@ -13,14 +13,20 @@ LOCK = os.path.join(VERIF, "obligations.lock")
 
 
 def _work(args):
-    qn, idx = args
+    qn, idx = args[0], args[1]
     try:
         from .source import SourceDB
         from . import contracts as C
         db = SourceDB()
         reg = C.load_contracts()
         c = reg[qn]
-        r = C.verify_instance(db, reg, c, idx)
+        if len(args) == 2 and c.budget.get("parallel"):
+            # first part of a function with many paths: explore until enough subtrees are pending, hand them back
+            r = C.verify_instance(db, reg, c, idx, split_at=c.budget["parallel"], tag="a")
+        elif len(args) > 2:
+            r = C.verify_instance(db, reg, c, idx, start=args[2], tag=args[3], split_at=c.budget.get("parallel"))
+        else:
+            r = C.verify_instance(db, reg, c, idx)
         r["sha"] = db.func_source_sha(c.module, c.funcpath)
         r["file"] = db.modules.get(c.module, {}).get("rel")
         r["file_sha"] = db.modules.get(c.module, {}).get("sha")
@@ -49,6 +55,8 @@ def run_all(selector, tier="quick"):
         if c.trusted or not selector(c):
             continue
         for i in range(len(c.instances)):
+            if tier == "quick" and c.quick_instances is not None and i not in c.quick_instances:
+                continue        # expensive functions: a representative subset on every change, all in the thorough tier
             jobs.append((qn, i))
     # long single instances first, so that they overlap with the many short ones
     heavy = ("_special_constraints_le_zero", "add_constraint_ne_zero", "add_constraint_le_zero", ".normalize",
@@ -57,14 +65,41 @@ def run_all(selector, tier="quick"):
     results = []
     if jobs:
         ctx = mp.get_context("fork")
-        with cf.ProcessPoolExecutor(max_workers=min(16, len(jobs)), mp_context=ctx) as ex:
+        par = any(reg[j[0]].budget.get("parallel") for j in jobs)
+        with cf.ProcessPoolExecutor(max_workers=16 if par else min(16, len(jobs)), mp_context=ctx) as ex:
             results = list(ex.map(_work, jobs))
+            # functions with many paths: the subtrees handed back by the first part are explored in parallel,
+            # round after round, and their obligations are merged into the result of the instance
+            rnd = 0
+            while True:
+                rnd += 1
+                more = []
+                for ri, r in enumerate(results):
+                    for pi, prefix in enumerate(r.pop("pending", None) or []):
+                        more.append((ri, (jobs[ri][0], jobs[ri][1], [prefix], "r%d_%d" % (rnd, pi))))
+                if not more:
+                    break
+                if os.environ.get("QVC_ROUNDS"):
+                    print("round", rnd, "parts", len(more), flush=True)
+                parts = list(ex.map(_work, [m[1] for m in more]))
+                for (ri, _), part in zip(more, parts):
+                    tgt = results[ri]
+                    tgt["obligations"] = tgt["obligations"] + part.get("obligations", [])
+                    tgt["paths"] = tgt.get("paths", 0) + part.get("paths", 0)
+                    for k in ("inlined", "used_contracts", "lemmas"):
+                        tgt[k] = sorted(set(tgt.get(k, [])) | set(part.get(k, [])))
+                    for k in ("solver_time", "solver_calls", "vacuity", "wall_s"):
+                        tgt[k] = (tgt.get(k) or 0) + (part.get(k) or 0)
+                    if part.get("status") != "ok" and tgt.get("status") == "ok":
+                        tgt["status"], tgt["unsupported"] = part.get("status"), part.get("unsupported")
+                    if part.get("pending"):
+                        tgt.setdefault("pending", []).extend(part["pending"])
     return reg, results
 
 
 _LEAN_FAMILIES = {"L1-mono-def", "L2-range", "L2'-negcount", "L3-bool-idempotent", "L4-spin-parity", "L5-fold-update", "sq-shape",
                   "L6/L7-slack", "L8-num_bits", "L9-relabel", "L10-split", "set-facts",
-                  "L11-enum", "L12-count", "L13-origin", "intp-closure", "L14-keyanc"}
+                  "L11-enum", "L12-count", "L13-origin", "intp-closure", "L14-keyanc", "L17-removed-pair"}
 
 
 def lean_status():
@@ -111,7 +146,7 @@ def merge(prop, reg, results):
             lemmas[l] = {"statement": LEMMAS.get(l, ""),
                          "status": lean_status() if l in _LEAN_FAMILIES else "assumed (mathematics, not proved here)"}
         for o in r["obligations"]:
-            base = re.sub(r"#p\d+$", "", o["name"])
+            base = re.sub(r"#p\w+$", "", o["name"])
             name = "%s/%s[%s]" % (prop, base, tag)
             cur = obligations.get(name)
             if cur is None:
@@ -235,7 +270,7 @@ def relock():
     sigfile = os.path.join(VERIF, "contracts", "loopsigs.json")
     if os.path.exists(sigfile):
         os.remove(sigfile)
-    reg, results = run_all(lambda c: True, "quick")      # every contract instance verified once
+    reg, results = run_all(lambda c: True, "thorough")      # every contract instance verified once
     sigs = {}
     for r in results:
         for qn, d in (r.get("loopsigs") or {}).items():
